@@ -1,5 +1,7 @@
 package log
 
+import "time"
+
 //verif:witness H_C08_fileline full truncated
 //verif:bound C08 quick GetFileLine: width W an arbitrary int (64-bit), file name arbitrary bytes of length 0..12, line 7 and 12345
 //verif:bound C08 thorough GetFileLine: width W an arbitrary int (64-bit), file name arbitrary bytes of length 0..40, line 7 and 12345
@@ -81,6 +83,44 @@ func H_C08_text() {
 			vAssert(tout[i] == '\n', "line-ends-with-newline")
 		} else {
 			vAssert(tout[i] >= 0x20, "no-raw-control-character-inside-the-line")
+		}
+	}
+	vReach("end")
+}
+
+//verif:witness H_C08_header end
+//verif:bound C08 all header: two events formatted back to back by both layouts, all 8 levels, timestamps in the same or a different second and in UTC or a fixed zone (+08:00 / -09:30); each line carries its own level name and its own wall-clock time
+// H_C08_header: '[LEVEL][yyyy-MM-ddTHH:mm:ss.SSS]' of every event is its own.
+func H_C08_header() {
+	levels := [8]Level{NoneLevel, TraceLevel, DebugLevel, InfoLevel, WarnLevel, ErrorLevel, PanicLevel, FatalLevel}
+	names := [8]string{"NONE", "TRACE", "DEBUG", "INFO", "WARN", "ERROR", "PANIC", "FATAL"}
+	zones := [3]*time.Location{nil, time.FixedZone("east", 8*3600), time.FixedZone("west", -(9*3600 + 1800))}
+	texts := [2][3]string{
+		{"2025-06-01T12:30:45.123", "2025-06-01T20:30:45.123", "2025-06-01T03:00:45.123"},
+		{"2025-06-01T12:30:46.123", "2025-06-01T20:30:46.123", "2025-06-01T03:00:46.123"},
+	}
+	tl := &TextLayout{BaseLayout{FileLineLength: 48}}
+	jl := &JSONLayout{BaseLayout{FileLineLength: 48}}
+	for ev := 0; ev < 2; ev++ {
+		li := vChoose("level", 8)
+		zi := vChoose("zone", 3)
+		si := 0
+		if ev == 1 {
+			si = vChoose("second", 2)
+		}
+		t := vFixedTime.Add(time.Duration(si) * time.Second)
+		if zones[zi] != nil {
+			t = t.In(zones[zi])
+		}
+		e := &Event{Level: levels[li], Time: t, File: "f.go", Line: 1, Tag: "_t_x", Fields: []Field{Msg("m")}}
+		tout := append([]byte(nil), tl.ToBytes(e)...)
+		jout := append([]byte(nil), jl.ToBytes(e)...)
+		wantHead := "[" + names[li] + "][" + texts[si][zi] + "][f.go:1] _t_x||msg=m\n"
+		vAssert(string(tout) == wantHead, "text-header-is-the-events-own-level-and-time")
+		g, ok := vParseJSONLine(jout)
+		vAssert(ok && len(g.vals) == 5, "json-line-valid")
+		if ok && len(g.vals) == 5 {
+			vAssert(vEqualCPs(g.vals[1].s, vCPs(texts[si][zi])), "json-time-is-the-events-own-time")
 		}
 	}
 	vReach("end")
